@@ -468,6 +468,9 @@ enum Kind {
     Unk,
     /// MX whose exchange is the origin itself: `z.` versus a free standing `@`.
     MxO,
+    /// `$INCLUDE f a.z.` (an entry, not a record): path plain / quoted /
+    /// escaped, origin argument relative / absolute.
+    Incl,
 }
 
 impl Kind {
@@ -479,6 +482,7 @@ impl Kind {
             Kind::Mx => "MX",
             Kind::Unk => "TYPE65280",
             Kind::MxO => "MX-origin",
+            Kind::Incl => "$INCLUDE",
         }
     }
     fn rtype(self) -> u16 {
@@ -488,6 +492,7 @@ impl Kind {
             Kind::Soa => 6,
             Kind::Mx | Kind::MxO => 15,
             Kind::Unk => 65280,
+            Kind::Incl => 0,
         }
     }
     fn mnemonic(self) -> &'static str {
@@ -497,6 +502,7 @@ impl Kind {
             Kind::Soa => "SOA",
             Kind::Mx | Kind::MxO => "MX",
             Kind::Unk => "TYPE65280",
+            Kind::Incl => "$INCLUDE",
         }
     }
     fn forms(self) -> usize {
@@ -507,6 +513,7 @@ impl Kind {
             Kind::Mx => 3,
             Kind::Unk => 2,
             Kind::MxO => 2,
+            Kind::Incl => 6,
         }
     }
 }
@@ -552,11 +559,14 @@ fn rdata_wire(k: Kind) -> Vec<u8> {
             v
         }
         Kind::Unk => vec![0xab, 0xcd],
+        Kind::Incl => Vec::new(),
     }
 }
 
+/// Expected entry in the representation of `entry_repr`: 'R' + wire record.
 fn rec_wire(owner: &[&str], rtype: u16, class: u16, ttl: u32, rdata: &[u8]) -> Vec<u8> {
-    let mut v = name_wire(owner);
+    let mut v = vec![b'R'];
+    v.extend(name_wire(owner));
     v.extend_from_slice(&rtype.to_be_bytes());
     v.extend_from_slice(&class.to_be_bytes());
     v.extend_from_slice(&ttl.to_be_bytes());
@@ -613,6 +623,7 @@ fn data_tokens(k: Kind, f: usize, origin: &[&str], rel: bool) -> Vec<String> {
                 }
             },
         ],
+        Kind::Incl => vec![["f", "\"f\"", "\\f"][f % 3].to_string(), nm(&["a", "z"], f / 3 == 1)],
         Kind::MxO => vec!["10".into(), if f == 1 && origin == ["z"] { "@".into() } else { "z.".into() }],
         Kind::Unk => {
             if f == 0 {
@@ -859,16 +870,25 @@ fn layout_verdict(text: &str, expected: &[Vec<u8>]) -> Option<(String, String)> 
     if out.end == End::Overrun {
         return Some(("overrun".into(), "more entries than bytes".into()));
     }
-    let got: Vec<&[u8]> = out.entries.iter().map(|e| &e[1..]).collect();
-    if got.len() != expected.len() || out.entries.iter().any(|e| e[0] != b'R') {
+    let got: Vec<&[u8]> = out.entries.iter().map(|e| &e[..]).collect();
+    if got.len() != expected.len() {
         return Some((
             "records-differ:count".into(),
-            format!("{} entries returned, logical file has {} records", got.len(), expected.len()),
+            format!("{} entries returned, logical file has {} entries", got.len(), expected.len()),
         ));
     }
     for (i, (g, e)) in got.iter().zip(expected).enumerate() {
         if *g != &e[..] {
-            let field = match (split_record(g), split_record(e)) {
+            if g[0] != e[0] {
+                return Some(("records-differ:entry-kind".into(), format!("entry {i} is of a different kind: got {} expected {}", hex(g), hex(e))));
+            }
+            if g[0] == b'I' {
+                return Some((
+                    "entries-differ:include".into(),
+                    format!("$INCLUDE entry {i} differs: got path+origin {:?} expected {:?}", String::from_utf8_lossy(&g[1..]), String::from_utf8_lossy(&e[1..])),
+                ));
+            }
+            let field = match (split_record(&g[1..]), split_record(&e[1..])) {
                 (Ok(g), Ok(e)) => {
                     if g.0 != e.0 {
                         "owner"
@@ -897,15 +917,27 @@ fn layout_verdict(text: &str, expected: &[Vec<u8>]) -> Option<(String, String)> 
 
 const L1_SIZES: [usize; 8] = [2, 5, 5, 6, 3, 41, 9, 3];
 const L1_SLOTS: [&str; 8] = ["dollar-ttl", "owner", "class-ttl", "data-form", "separator", "continuation", "line-end", "sentinel"];
-const L1_KINDS: [Kind; 6] = [Kind::A, Kind::Txt, Kind::Soa, Kind::Mx, Kind::Unk, Kind::MxO];
+const L1_KINDS: [Kind; 7] = [Kind::A, Kind::Txt, Kind::Soa, Kind::Mx, Kind::Unk, Kind::MxO, Kind::Incl];
 
 /// File: `$ORIGIN z.` [`$TTL 60`] context-record R [sentinel].  The context
 /// record has R's owner, class IN and TTL 60 stated explicitly, so that
 /// every inheritance form of R is well defined.
-fn l1_render(owner_i: usize, kind: Kind, c: &[usize]) -> Option<Rendering> {
+struct L1Head {
+    text: String,
+    expected: Vec<Vec<u8>>,
+    indent: String,
+    toks: Vec<String>,
+    roles: Vec<&'static str>,
+    st: RefState,
+    abs: Labels,
+}
+
+/// Slots 0..4 (dollar-ttl, owner, class-ttl, data-form): everything up to
+/// the tokens of the record under test.
+fn l1_head(owner_i: usize, kind: Kind, c: &[usize]) -> Option<L1Head> {
     let origin: Labels = vec!["z"];
     let ttl = 60u32;
-    let (dttl, of, ct, df, sep, cont, end, sent) = (c[0], OWNER_FORMS[c[1]], c[2], c[3], c[4], c[5], c[6], c[7]);
+    let (dttl, of, ct, df) = (c[0], OWNER_FORMS[c[1]], c[2], c[3]);
     if df >= kind.forms() {
         return None;
     }
@@ -921,6 +953,18 @@ fn l1_render(owner_i: usize, kind: Kind, c: &[usize]) -> Option<Rendering> {
     text.push_str(&format!("{} IN 60 A 192.0.2.9\n", name_text(&abs, &origin, true)));
     let (o, t, cl) = st.record(Some(&abs), Some(60), Some(1))?;
     expected.push(rec_wire(&o, 1, cl, t, &[192, 0, 2, 9]));
+    if kind == Kind::Incl {
+        // a directive has no owner/class/TTL slots
+        if c[1] != 0 || ct != 0 {
+            return None;
+        }
+        let mut e = vec![b'I', b'f', 0, 1];
+        e.extend(name_wire(&["a", "z"]));
+        expected.push(e);
+        let mut toks = vec!["$INCLUDE".to_string()];
+        toks.extend(data_tokens(kind, df, &origin, false));
+        return Some(L1Head { text, expected, indent: String::new(), toks, roles: vec!["type", "rd0", "rd1"], st, abs });
+    }
     // record under test
     let (indent, owner_tok) = owner_text(&abs, &origin, of)?;
     let (ce, te) = ct_explicit(ct);
@@ -934,18 +978,31 @@ fn l1_render(owner_i: usize, kind: Kind, c: &[usize]) -> Option<Rendering> {
         toks.push(d);
         roles.push(["rd0", "rd1", "rd2", "rd3", "rd4", "rd5", "rd6"][i]);
     }
+    Some(L1Head { text, expected, indent, toks, roles, st, abs })
+}
+
+fn l1_cont(h: &L1Head, cont: usize) -> Option<Option<(usize, usize)>> {
     // continuation gap is anchored at the type token: offset -3..=6
-    let type_idx = roles.iter().position(|r| *r == "type").unwrap() as isize;
-    let contv = if cont == 0 {
-        None
+    let type_idx = h.roles.iter().position(|r| *r == "type").unwrap() as isize;
+    if cont == 0 {
+        Some(None)
     } else {
         let g = type_idx + ((cont - 1) / 4) as isize - 3;
         if g < 0 {
             return None;
         }
-        Some(((cont - 1) % 4 + 1, g as usize))
-    };
-    text.push_str(&render_line(&indent, &toks, Layout { sep, cont: contv, end })?);
+        Some(Some(((cont - 1) % 4 + 1, g as usize)))
+    }
+}
+
+/// Slots 4..8 (separator, continuation, line-end, sentinel).
+fn l1_tail(h: &L1Head, c: &[usize]) -> Option<(String, Vec<Vec<u8>>)> {
+    let (sep, cont, end, sent) = (c[0], c[1], c[2], c[3]);
+    let contv = l1_cont(h, cont)?;
+    let mut text = h.text.clone();
+    let mut expected = h.expected.clone();
+    let mut st = h.st.clone();
+    text.push_str(&render_line(&h.indent, &h.toks, Layout { sep, cont: contv, end })?);
     match sent {
         0 => {}
         1 => {
@@ -955,27 +1012,37 @@ fn l1_render(owner_i: usize, kind: Kind, c: &[usize]) -> Option<Rendering> {
             expected.push(rec_wire(&o, 1, cl, t, &[192, 0, 2, 7]));
         }
         _ => {
+            if h.toks[0] == "$INCLUDE" {
+                return None; // owner inheritance across $INCLUDE is not specified
+            }
             text.push_str("\tA 192.0.2.7\n");
             let (o, t, cl) = st.record(None, None, None)?;
-            if o != abs || t != 60 || cl != 1 {
+            if o != h.abs || t != 60 || cl != 1 {
                 return None;
             }
             expected.push(rec_wire(&o, 1, cl, t, &[192, 0, 2, 7]));
         }
     }
+    Some((text, expected))
+}
+
+fn l1_render(owner_i: usize, kind: Kind, c: &[usize]) -> Option<Rendering> {
+    let h = l1_head(owner_i, kind, &c[..4])?;
+    let (text, expected) = l1_tail(&h, &c[4..])?;
+    let contv = l1_cont(&h, c[5])?;
     let mut slots = Vec::new();
     let names: [String; 8] = [
-        ["none", "present"][dttl].into(),
-        format!("{of:?}"),
-        CT_NAMES[ct].into(),
-        format!("form{df}"),
-        SEP_NAMES[sep].into(),
+        ["none", "present"][c[0]].into(),
+        format!("{:?}", OWNER_FORMS[c[1]]),
+        CT_NAMES[c[2]].into(),
+        format!("form{}", c[3]),
+        SEP_NAMES[c[4]].into(),
         match contv {
             None => "none".into(),
-            Some((sh, g)) => format!("shape{sh}-after-{}", roles[g]),
+            Some((sh, g)) => format!("shape{sh}-after-{}", h.roles[g]),
         },
-        END_NAMES[end].into(),
-        ["none", "explicit", "inherited"][sent].into(),
+        END_NAMES[c[6]].into(),
+        ["none", "explicit", "inherited"][c[7]].into(),
     ];
     for i in 0..8 {
         if c[i] != 0 {
@@ -1026,6 +1093,42 @@ fn l2_step(st: &mut RefState, origin: &mut Labels, rec: &LRec, idx: usize, c: &[
     }
 }
 
+/// Text of one record of an L2 file (directives before it, the line, and
+/// trailing lines), under the origin in force *after* its directives.
+fn l2_chunk(rec: &LRec, c: &[usize; 5], origin: &Labels) -> Option<String> {
+    let mut text = String::new();
+    if c[0] > 0 {
+        text.push_str(&format!("$TTL {}\n", [60, 3600][c[0] - 1]));
+    }
+    if c[1] == 1 {
+        text.push_str("$ORIGIN a.z.\n");
+    }
+    let abs = owner_labels(rec.owner);
+    let of = [OwnerForm::Abs, OwnerForm::Rel, OwnerForm::InhTab][c[2]];
+    let (indent, owner_tok) = owner_text(&abs, origin, of)?;
+    let (mut toks, _) = head_tokens(owner_tok, c[3], rec.ttl, rec.kind);
+    let ntype = toks.len() - 1;
+    let style = c[4];
+    // data form tied to owner form / style
+    let df = match rec.kind {
+        Kind::Txt => [0, 0, 4, 5][style],
+        Kind::Unk => [0, 0, 1, 1][style],
+        _ => 0,
+    };
+    toks.extend(data_tokens(rec.kind, df, origin, c[2] == 1));
+    let lay = match style {
+        0 => Layout { sep: 0, cont: None, end: 0 },
+        1 => Layout { sep: 1, cont: None, end: 1 },
+        2 => Layout { sep: 0, cont: Some((1, ntype)), end: 4 },
+        _ => Layout { sep: 2, cont: Some((2, 0)), end: 6 },
+    };
+    text.push_str(&render_line(&indent, &toks, lay)?);
+    if style == 3 {
+        text.push_str(" ;c\n\n");
+    }
+    Some(text)
+}
+
 fn l2_render(file: &[LRec], choices: &[[usize; 5]]) -> Option<Rendering> {
     let mut st = RefState::default();
     let mut origin: Labels = vec!["z"];
@@ -1036,35 +1139,8 @@ fn l2_render(file: &[LRec], choices: &[[usize; 5]]) -> Option<Rendering> {
         if !l2_step(&mut st, &mut origin, rec, i, c) {
             return None;
         }
-        if c[0] > 0 {
-            text.push_str(&format!("$TTL {}\n", [60, 3600][c[0] - 1]));
-        }
-        if c[1] == 1 {
-            text.push_str("$ORIGIN a.z.\n");
-        }
+        text.push_str(&l2_chunk(rec, c, &origin)?);
         let abs = owner_labels(rec.owner);
-        let of = [OwnerForm::Abs, OwnerForm::Rel, OwnerForm::InhTab][c[2]];
-        let (indent, owner_tok) = owner_text(&abs, &origin, of)?;
-        let (mut toks, _) = head_tokens(owner_tok, c[3], rec.ttl, rec.kind);
-        let ntype = toks.len() - 1;
-        let style = c[4];
-        // data form tied to owner form / style
-        let df = match rec.kind {
-            Kind::Txt => [0, 0, 4, 5][style],
-            Kind::Unk => [0, 0, 1, 1][style],
-            _ => 0,
-        };
-        toks.extend(data_tokens(rec.kind, df, &origin, c[2] == 1));
-        let lay = match style {
-            0 => Layout { sep: 0, cont: None, end: 0 },
-            1 => Layout { sep: 1, cont: None, end: 1 },
-            2 => Layout { sep: 0, cont: Some((1, ntype)), end: 4 },
-            _ => Layout { sep: 2, cont: Some((2, 0)), end: 6 },
-        };
-        text.push_str(&render_line(&indent, &toks, lay)?);
-        if style == 3 {
-            text.push_str(" ;c\n\n");
-        }
         expected.push(rec_wire(&abs, rec.kind.rtype(), 1, rec.ttl, &rdata_wire(rec.kind)));
         let names = [
             ["none", "60", "3600"][c[0]].to_string(),
@@ -1102,13 +1178,18 @@ std::thread_local! {
     static SEEN_SIGS: std::cell::RefCell<std::collections::HashSet<String>> = std::cell::RefCell::new(Default::default());
 }
 
-/// Report through ctx only the first instance of a signature per worker
-/// thread (building the replay JSON for hundreds of thousands of instances
+/// Report through ctx only the first instance of a signature in the run (building the replay JSON for hundreds of thousands of instances
 /// of one class serialises the run); all instances are counted in the
 /// `*.failing.*` / `violating-cases` counters.
 fn first_in_thread(sig: &str) -> bool {
-    SEEN_SIGS.with(|s| s.borrow_mut().insert(sig.to_string()))
+    if !SEEN_SIGS.with(|s| s.borrow_mut().insert(sig.to_string())) {
+        return false;
+    }
+    // first in this thread: first in the whole run?
+    SEEN_GLOBAL.lock().unwrap().insert(sig.to_string())
 }
+
+static SEEN_GLOBAL: Mutex<std::collections::BTreeSet<String>> = Mutex::new(std::collections::BTreeSet::new());
 
 struct LayoutCounters {
     renderings: AtomicU64,
@@ -1185,7 +1266,7 @@ fn l2_report(sh: &Shared, file: &[LRec], ch: &[[usize; 5]], class: &str, what: &
     let at = out
         .map(|o| {
             let mut k = 0;
-            while k < o.entries.len() && k < rmin.expected.len() && o.entries[k][1..] == rmin.expected[k][..] {
+            while k < o.entries.len() && k < rmin.expected.len() && o.entries[k] == rmin.expected[k] {
                 k += 1;
             }
             k.min(file.len() - 1)
@@ -1245,9 +1326,14 @@ fn run_l1(sh: &Shared, lc: &LayoutCounters, per_case_wd: bool, only: Option<(usi
         }
         let mut l = Local::default();
         let mut inadm = 0u64;
+        let h = l1_head(owner_i, kind, &head);
         product(&L1_SIZES[4..], |t| {
             let c = [head[0], head[1], head[2], head[3], t[0], t[1], t[2], t[3]];
-            match l1_render(owner_i, kind, &c) {
+            struct R {
+                text: String,
+                expected: Vec<Vec<u8>>,
+            }
+            match h.as_ref().and_then(|h| l1_tail(h, t)).map(|(text, expected)| R { text, expected }) {
                 None => {
                     inadm += 1;
                 }
@@ -1311,7 +1397,10 @@ fn run_l2(sh: &Shared, lc: &LayoutCounters, n: usize, kinds: &[Kind], per_case_w
         let mut l = Local::default();
         let mut admissible = 0u64;
         let mut pruned = 0u64;
-        // depth-first over records, pruning on the reference interpreter
+        // depth-first over records, pruning on the reference interpreter;
+        // the text is built incrementally (one chunk per record)
+        let expected: Vec<Vec<u8>> = file.iter().map(|r| rec_wire(&owner_labels(r.owner), r.kind.rtype(), 1, r.ttl, &rdata_wire(r.kind))).collect();
+        #[allow(clippy::too_many_arguments)]
         fn rec(
             i: usize,
             file: &[LRec],
@@ -1319,42 +1408,44 @@ fn run_l2(sh: &Shared, lc: &LayoutCounters, n: usize, kinds: &[Kind], per_case_w
             st: &RefState,
             origin: &Labels,
             ch: &mut Vec<[usize; 5]>,
+            text: &mut String,
             pruned: &mut u64,
-            leaf: &mut dyn FnMut(&[[usize; 5]]),
+            leaf: &mut dyn FnMut(&[[usize; 5]], &str),
         ) {
             if i == file.len() {
-                leaf(ch);
+                leaf(ch, text);
                 return;
             }
             for c in menu {
                 let mut st2 = st.clone();
                 let mut o2 = origin.clone();
                 if l2_step(&mut st2, &mut o2, &file[i], i, c) {
-                    ch.push(*c);
-                    rec(i + 1, file, menu, &st2, &o2, ch, pruned, leaf);
-                    ch.pop();
+                    match l2_chunk(&file[i], c, &o2) {
+                        Some(chunk) => {
+                            let keep = text.len();
+                            text.push_str(&chunk);
+                            ch.push(*c);
+                            rec(i + 1, file, menu, &st2, &o2, ch, text, pruned, leaf);
+                            ch.pop();
+                            text.truncate(keep);
+                        }
+                        None => *pruned += 1,
+                    }
                 } else {
                     *pruned += 1;
                 }
             }
         }
-        let mut leaf = |ch: &[[usize; 5]]| {
-            let r = match l2_render(file, ch) {
-                Some(r) => r,
-                None => {
-                    lc.inadmissible.fetch_add(1, AO::Relaxed);
-                    return;
-                }
-            };
+        let mut leaf = |ch: &[[usize; 5]], text: &str| {
             if per_case_wd {
-                sh.wd.enter(|| json!({"part": "layout", "text": r.text, "expected_hex": r.expected.iter().map(|e| hex(e)).collect::<Vec<_>>()}));
+                sh.wd.enter(|| json!({"part": "layout", "text": text, "expected_hex": expected.iter().map(|e| hex(e)).collect::<Vec<_>>()}));
             }
             admissible += 1;
             l.evals += 1;
             if n <= 2 && ch.iter().all(|c| c[4] == 0) {
-                l.nontrivial.push(fnv(r.text.as_bytes()));
+                l.nontrivial.push(fnv(text.as_bytes()));
             }
-            if let Some((class, what)) = layout_verdict(&r.text, &r.expected) {
+            if let Some((class, what)) = layout_verdict(text, &expected) {
                 lc.failing.fetch_add(1, AO::Relaxed);
                 l.bump(&format!("{label}.failing.{class}"));
                 l2_report(sh, file, ch, &class, &what);
@@ -1363,7 +1454,8 @@ fn run_l2(sh: &Shared, lc: &LayoutCounters, n: usize, kinds: &[Kind], per_case_w
                 sh.wd.leave();
             }
         };
-        rec(0, file, &menu, &RefState::default(), &vec!["z"], &mut Vec::new(), &mut pruned, &mut leaf);
+        let mut text = String::from("$ORIGIN z.\n");
+        rec(0, file, &menu, &RefState::default(), &vec!["z"], &mut Vec::new(), &mut text, &mut pruned, &mut leaf);
         lc.renderings.fetch_add(admissible, AO::Relaxed);
         lc.inadmissible.fetch_add(pruned, AO::Relaxed);
         l.counts.insert(format!("{label}.renderings"), admissible);
@@ -1460,7 +1552,7 @@ fn replay(sh: &Shared, lc: &LayoutCounters, case: &Value) {
 
 fn main() {
     let ctx = Ctx::new("C07", "exploration");
-    let wd = Watchdog::start(ctx.clone(), Duration::from_secs(30), |d| {
+    let wd = Watchdog::start(ctx.clone(), Duration::from_secs(120), |d| {
         let part = d["part"].as_str().unwrap_or("?");
         let part = part.strip_suffix("-chunk").unwrap_or(part);
         format!("C07|hang|{part}")
@@ -1469,7 +1561,7 @@ fn main() {
     let lc = LayoutCounters { renderings: AtomicU64::new(0), inadmissible: AtomicU64::new(0), failing: AtomicU64::new(0) };
     let quick = ctx.quick();
 
-    let (byte_len, tok_depth, parsed_tok_depth) = if quick { (5, 4, 3) } else { (6, 6, 4) };
+    let (byte_len, tok_depth, parsed_tok_depth) = if quick { (5, 5, 3) } else { (6, 6, 4) };
 
     if let Some(path) = &ctx.replay {
         let text = std::fs::read_to_string(path).expect("replay file");
@@ -1535,7 +1627,7 @@ fn main() {
             "inputs are bounded: bytes over a 14-symbol alphabet, token strings over a 26-token menu, layout rewrites from the listed per-slot menus; longer inputs and other octets (e.g. non-ASCII, UTF-8 sequences) are not covered",
             "layout rewrites used are those whose equivalence follows from RFC 1035 5.1 and RFC 2308 4: omitted TTL = $TTL if a $TTL directive precedes, else last explicitly stated TTL; omitted class = last explicitly stated class; blank owner = last stated owner; files whose first record omits the TTL without $TTL, or omits the class, are not part of the relation",
             "parentheses are always set off by white space in layout renderings; adjacency is exercised only by the totality spaces",
-            "hang detection is a 30 s wall-clock watchdog per chunk of <=4096 cases",
+            "hang detection is a 120 s wall-clock watchdog per chunk of <=4096 cases",
         ],
     );
 }
